@@ -5,7 +5,7 @@
 (* (harness/scopes/runner.py).  Each step consumes one line and prints its *)
 (* verdict.  The expected sites, offsets, positions and order are computed *)
 (* here, from the projected PRE-state and the registrations, with the      *)
-(* operators of Scopes.tla and the listing semantics (Listing!Edit).       *)
+(* operators of Scopes.tla (Sites, Offsets, ExpectedPositions).            *)
 (*                                                                         *)
 (*   t = [id, isa, pre, regs, invs, markers, postsecs, exc, stage, npass]  *)
 (*   regs[i]    = [id, pass, kind, pos, fpos, has, pats, u]                *)
@@ -42,10 +42,10 @@ C07Ctx(t) ==
       ctxOk == \A i \in DOMAIN t.invs :
                   LET b == BlockByU(t.pre, t.invs[i].u)
                   IN  b.u # 0 /\ b.k = "code" /\ t.invs[i].off \in UnitStarts(b)
+      ctxSites == {[reg |-> t.invs[i].reg, u |-> t.invs[i].u, off |-> t.invs[i].off, inv |-> t.invs[i].inv] :
+                      i \in DOMAIN t.invs}
       ctxPos == IF ctxOk
-                THEN MarkerPositions(t.pre,
-                        [i \in 1..Len(t.invs) |-> [id |-> t.invs[i].reg * 1000 + t.invs[i].inv,
-                                                   u |-> t.invs[i].u, off |-> t.invs[i].off]], MLen(t))
+                THEN {[inv |-> x.inv, s |-> SecNameOf(t.pre, x.u), p |-> SitePos(t.pre, ctxSites, x, MLen(t))] : x \in ctxSites}
                 ELSE {}
   IN  [t |-> t, M |-> M, regs |-> regs, sites |-> sites, expPos |-> expPos,
        ctxOk |-> ctxOk, ctxPos |-> ctxPos, refused |-> Refused(M, regs)]
@@ -59,7 +59,7 @@ DomC07(t) ==
   IN  /\ t.isa \in {"x64", "ia32", "arm64"}
       /\ BlocksTile(t.pre)
       /\ \A i \in DOMAIN bs :
-            /\ bs[i].n > 0
+            /\ bs[i].n >= 0
             /\ Len(bs[i].fn) <= 1
             /\ Range(bs[i].ent) \subseteq Range(bs[i].fn)
             /\ (bs[i].k = "code" => \A j \in DOMAIN bs[i].units : bs[i].units[j].k # "bad")
@@ -69,7 +69,6 @@ DomC07(t) ==
       /\ \A i \in DOMAIN t.regs :
             /\ t.regs[i].id = i - 1
             /\ (t.regs[i].kind = "single" => BlockByU(t.pre, t.regs[i].u).k = "code")
-      /\ Len(t.regs) < 100 /\ Len(bs) < 100
 
 C07PreBytes(t) == {[name |-> t.pre.secs[i].name, bytes |-> t.pre.secs[i].bytes] : i \in DOMAIN t.pre.secs}
 C07PostBytes(t) == {[name |-> t.postsecs[i].name, bytes |-> t.postsecs[i].bytes] : i \in DOMAIN t.postsecs}
@@ -109,7 +108,7 @@ RegOfInv(X, inv) ==
   LET c == SelectSeq(X.t.invs, LAMBDA i : i.inv = inv)
   IN  IF c = <<>> THEN 0 - 1 ELSE c[1].reg
 ObsRegPos(X) == {[reg |-> RegOfInv(X, X.t.markers[i].inv), s |-> X.t.markers[i].s, p |-> X.t.markers[i].p] : i \in DOMAIN X.t.markers}
-ExpRegPos(X) == {[reg |-> e.id \div 100, s |-> e.s, p |-> e.p] : e \in X.expPos}
+ExpRegPos(X) == {[reg |-> e.reg, s |-> e.s, p |-> e.p] : e \in X.expPos}
 MarkersWellFormed(X) ==
   /\ \A i \in DOMAIN X.t.invs : Len(MarkersOf(X.t, X.t.invs[i].inv)) = 1
   /\ \A i \in DOMAIN X.t.markers : X.t.markers[i].al /\ RegOfInv(X, X.t.markers[i].inv) >= 0
@@ -142,10 +141,22 @@ CtxBad(X) ==
             /\ v.fn = FnOfBlock(b)
             /\ X.ctxOk
             /\ Len(ms) = 1
-            /\ [id |-> v.reg * 1000 + v.inv, s |-> ms[1].s, p |-> ms[1].p] \in X.ctxPos)}}
+            /\ [inv |-> v.inv, s |-> ms[1].s, p |-> ms[1].p] \in X.ctxPos)}}
 C07_ContextNames(X) == CtxBad(X) = {}
 
-C07KfTags(X, clause) == {}
+\* KF-C07-1: a scope designates a zero-sized code block; apply() crashes on the
+\* first such block in address order (ValueError from the decoder when one of
+\* its modifications needs the disassembly, else AssertionError from insert()),
+\* leaving the earlier blocks rewritten.
+ZeroSites(X) == {s \in X.sites : BlockByU(X.t.pre, s.u).n = 0}
+KF_C07_1(X) ==
+  /\ ZeroSites(X) # {}
+  /\ X.t.stage = "apply"
+  /\ LET first == CHOOSE s \in ZeroSites(X) : \A r \in ZeroSites(X) : BlockIdx(X.t.pre, s.u) <= BlockIdx(X.t.pre, r.u)
+         needsDis == \E s \in ZeroSites(X) : s.u = first.u /\ s.pos # "ENTRY"
+     IN  X.t.exc = (IF needsDis THEN "ValueError" ELSE "AssertionError")
+C07KfTags(X, clause) ==
+  IF clause = "C07_Completes" /\ ~X.refused /\ KF_C07_1(X) THEN {"KF-C07-1"} ELSE {}
 
 \* <<name, in-domain, holds>>
 C07Clauses(X) ==
